@@ -138,7 +138,7 @@ def is_query(v, variant=None):
     return isinstance(v, tuple) and v[0] == "adt" and v[1].endswith(QUERY_ADT) and (variant is None or v[2] == variant)
 
 
-def explore_resolver(fx, rn):
+def explore_resolver(fx, rn, havoc=False):
     """Run the resolver with the connection wrapper looked through; every path's trace lists the queries built and how the responses are consumed."""
     def hook(fn, args, node, interp):
         s2 = T.short(fn, 2)
@@ -170,14 +170,30 @@ def explore_resolver(fx, rn):
                 return A.NONE
             interp.trace.append(("next", args[0], "Some"))
             return A.some(A.ok(("sym", "RESPONSE")))
+        if s2 == "Pipeline::pop" and args:
+            # `while let Some(response) = pipeline.pop()`: per iteration the pipeline is exhausted, or hands out one response — a good
+            # one or a failed one (which collect_result may sink: C03's subject; here only what happens to the *other* responses)
+            c = interp.choose(3, "pop-response")
+            if c == 0:
+                interp.trace.append(("next", args[0], "None"))
+                return A.NONE
+            interp.trace.append(("next", args[0], "Some" if c == 1 else "Some-failed"))
+            return A.some(A.ok(("sym", "RESPONSE"))) if c == 1 else A.some(A.err(("sym", "RESPONSE_ERR")))
         if s2 in ("Evaluator::collect_result",) and len(args) >= 2:
             # Result<T,E> -> Result<Option<T>,E>: Ok(x) => Ok(Some(x)); errors are C03's subject
             k, p = interp._known(args[1], False)
             interp.trace.append(("call", fn, tuple(args), node.get("sp")))
+            if k == "Err":
+                # a failed response: tolerated (sunk: Ok(None)) or propagated — which, sink_error decides (C03/R3)
+                if interp.choose(2, "sunk") == 0:
+                    interp.trace.append(("sunk", args[1]))
+                    return A.ok(A.NONE)
+                return A.err(("sym", "SUNK_OR_ERR"))
             return A.ok(A.some(p)) if k == "Ok" else ("sym", "SUNK_OR_ERR")
         return None
-    it = A.Interp(fx, hook=hook, crates=("bgpfu",), max_paths=4000)
+    it = A.Interp(fx, hook=hook, crates=("bgpfu",), max_paths=4000, havoc_loops=havoc)
     it.model_iterators = False
+    it.havoc_collections = havoc
     return it.explore(rn)
 
 
@@ -274,7 +290,8 @@ def resolver_rules(chk, fx, ty, rn, paths):
                 itv = e[2][1] if len(e[2]) > 1 else None
                 names = [T.short(x[1], 2) for x in A.walk_value(itv) if x[0] == "term"] if itv is not None else []
                 bad = [x for x in names if x in ITER_DROPPING]
-                src = "Pipeline::responses" in names
+                # the responses come from responses(), or one at a time from pop() (a loop over the pipeline: pop_form_rules)
+                src = "Pipeline::responses" in names or A.mentions(itv, lambda x: x == ("sym", "RESPONSE"))
                 maps = [x for x in A.walk_value(itv) if x[0] == "term" and T.short(x[1], 2) == "Iterator::map"]
                 mp_ok = True
                 for m in maps:
@@ -289,8 +306,51 @@ def resolver_rules(chk, fx, ty, rn, paths):
                              holds=ok, key="C11/R2 Resolver<%s>::resolve responses-adaptor %s" % (ty, ",".join(bad) or ("rewritten" if not mp_ok else "no-responses")),
                              detail=None if ok else "an adaptor between responses() and collect_results drops, reorders or rewrites responses: members / prefixes are lost silently")
                 break
+    if any(e[0] == "next" and e[2] == "Some-failed" for p in paths for e in p.trace):
+        pop_form_rules(chk, fx, ty, rn)
     if ty in ("AsSet", "RouteSet", "AutNum"):
         chk.instance("C11/R2", "Resolver<%s> collects its responses with collect_results" % ty, rn, None, holds=n >= 1, key="C11/R2 Resolver<%s> no collect_results" % ty)
+
+
+def pop_form_rules(chk, fx, ty, rn):
+    """The responses taken off the pipeline one at a time in a loop (`while let Some(r) = pipeline.pop()`).  Every response must be
+    looked at: (a) a response whose error was sunk (tolerated) is followed by the next one — the loop goes round, it does not end;
+    (b) what a good response yields is added to a collection carried round the loop; (c) when the pipeline is exhausted the resolver
+    returns that collection.  Decided on explored paths with the loop-carried variables symbolic."""
+    t = fx.thir[rn]
+    paths = [p for p in explore_resolver(fx, rn, havoc=True) if p.end != "abort"]
+    acc = set()
+    n_ok = n_sunk = 0
+    for p in paths:
+        nx = [e for e in p.trace if e[0] == "next"]
+        if not nx:
+            continue
+        kind = nx[-1][2]
+        if kind == "Some-failed":
+            # collect_result(Err(e)): Err(e') escapes with `?` (the whole resolution fails: fine) or Ok(None) = sunk
+            sunk = any(e[0] == "sunk" for e in p.trace)
+            if not sunk:
+                continue
+            n_sunk += 1
+            chk.instance("C11/R2", "Resolver<%s>: after a tolerated (sunk) response the next response is taken" % ty, rn, loc_of(t.get("sp")), holds=p.end == "iter-end",
+                         key="C11/R2 Resolver<%s>::resolve responses-adaptor stops-at-sunk-response" % ty,
+                         detail=None if p.end == "iter-end" else "the loop ends (%s) at the first tolerated error: the responses still in the pipeline — the other address family — are never collected" % p.end)
+        elif kind == "Some":
+            cr = p.calls("Evaluator::collect_results")
+            ext = [c for c in p.calls("Vec::extend") + p.calls("Extend::extend") + p.calls("Vec::push") + p.calls("Vec::append") + p.calls("HashSet::extend") + p.calls("BTreeSet::extend")
+                   if len(c[2]) == 2 and c[2][0][0] == "sym" and c[2][0][1].startswith("loop:") and A.mentions(c[2][1], lambda x: x[0] == "term" and T.short(x[1], 2) == "Evaluator::collect_results")]
+            if p.end == "iter-end":
+                n_ok += 1
+                chk.instance("C11/R2", "Resolver<%s>: what a good response yields is added to the collection carried round the loop" % ty, rn, loc_of(t.get("sp")),
+                             holds=bool(cr) and bool(ext), key="C11/R2 Resolver<%s>::resolve responses-adaptor result-not-accumulated" % ty)
+                acc |= {c[2][0][1][5:] for c in ext}
+    chk.floor("C11/R2 Resolver<%s> pop-loop paths with a good response" % ty, n_ok, 1)
+    for p in paths:
+        nx = [e for e in p.trace if e[0] == "next"]
+        if nx and nx[-1][2] == "None" and A.is_res(p.ret) and p.ret[2] == "Ok":
+            good = any(A.mentions(p.ret, lambda x, v=v: x == ("sym", "loop:" + v)) for v in acc)
+            chk.instance("C11/R2", "Resolver<%s>: when the pipeline is exhausted the accumulated collection is the result (%s)" % (ty, A.vstr(p.ret)[:60]), rn,
+                         loc_of(t.get("sp")), holds=good, key="C11/R2 Resolver<%s>::resolve responses-adaptor accumulated-result-not-returned" % ty)
 
 
 def r4_recursive(chk, fx):
@@ -376,3 +436,7 @@ def r6_agent_delivery(chk, fx):
     # routes in this family" and single unparsable items is tolerated): C03/R3's decision on sink_error, recorded here
     from . import c03
     c03.r3_sink(_Rename(chk, "C03/R3", "C11/R6:sink"), fx)
+    # (c) what the evaluator returned is what the agent goes on with: Ok(set) becomes ranges = Some(partition of that set) on every path
+    # (an evaluation that succeeded with the empty set is a result — the installed filters must be emptied — not a failure), and every
+    # candidate is evaluated: C03/R2's decision on Candidate::evaluate and Policies::evaluate
+    c03.r2_eval(_Rename(chk, "C03/R2", "C11/R6:eval"), fx)
